@@ -1001,7 +1001,8 @@ def check(run, mods, wd, rnd) -> dict:
         with open(os.environ["C02X_DEBUG"], "w") as fh:
             json.dump({"disagreements": disagreements, "sem_bad": sem_bad}, fh, indent=1, default=str)
     # ---- property oracle (deterministic: fixed valuations) on every fired source
-    kf = common.load_findings("C02")
+    from .c02_sweep import live_findings      # a `finding:` line with a later `fixed:` line is superseded
+    kf = live_findings("C02")
     failures, reproduced = [], {}
     for (rid, source), term in fired_sources.items():
         if (rid, source) in random_sources:
